@@ -150,7 +150,7 @@ theorem step_target (now id : Nat) (bodies : List Bytes) (hne : ∀ b ∈ bodies
   have hN : bodies.length ≠ 0 := by omega
   have hno1 : ¬ m.h.no = 1 := by omega
   have hset := expSlots_set bodies seen m.h.no (by omega) hkN
-  have hcond : ¬ (m.h.no = 0 ∨ m.h.no > (expSlots bodies seen).length) := by
+  have hcond : ¬ (m.h.no = 0 ∨ m.h.no > (expSlots bodies seen).length ∨ bodies.length ≠ (expSlots bodies seen).length) := by
     rw [expSlots_length]; omega
   have hrf := received_full bodies hne (m.h.no :: seen)
   unfold received at hrf
@@ -206,8 +206,22 @@ theorem completePack_impossible (now id : Nat) (bodies : List Bytes) (seen : Lis
   by_cases h0 : m.h.sum = 0
   · simp [h0]
   · have hno1 : ¬ m.h.no = 1 := by omega
-    have hc : m.h.no = 0 ∨ m.h.no > t.slots.length := by
+    have hc : m.h.no = 0 ∨ m.h.no > t.slots.length ∨ m.h.sum ≠ t.slots.length := by
       rw [hs, expSlots_length]; omega
+    simp only [h0, if_false, hno1, hid, hf, hc, if_true]
+
+/-- a package of the target id that announces ANOTHER total than the transfer under way (and is not a first package)
+changes nothing and completes nothing (D28) -/
+theorem completePack_other_total (now id : Nat) (bodies : List Bytes) (seen : List Nat) (recs : List Transfer)
+    (ha : Active id bodies seen recs) (m : PMsg) (hid : m.h.id = id) (hno1 : m.h.no ≠ 1)
+    (hsum : m.h.sum ≠ bodies.length) :
+    completePack now recs m = (recs, .none) := by
+  obtain ⟨⟨t, hf, hs⟩, _⟩ := ha
+  unfold completePack
+  by_cases h0 : m.h.sum = 0
+  · simp [h0]
+  · have hc : m.h.no = 0 ∨ m.h.no > t.slots.length ∨ m.h.sum ≠ t.slots.length := by
+      rw [hs, expSlots_length]; exact Or.inr (Or.inr hsum)
     simp only [h0, if_false, hno1, hid, hf, hc, if_true]
 
 /-- once the transfer is gone (completed), late packets 2..N of it are ignored -/
@@ -235,7 +249,8 @@ theorem step_first (now id : Nat) (bodies : List Bytes) (hne : ∀ b ∈ bodies,
   have hnew := findRec_append_new recs ⟨id, List.replicate bodies.length [], now, now, m.h⟩ id
   simp only [if_true] at hnew
   rw [hempty] at hnew
-  have hcond : ¬ (1 = 0 ∨ 1 > (expSlots bodies []).length) := by rw [expSlots_length]; omega
+  have hcond : ¬ (1 = 0 ∨ 1 > (expSlots bodies []).length ∨ bodies.length ≠ (expSlots bodies []).length) := by
+    rw [expSlots_length]; omega
   have hrf := received_full bodies hne [1]
   unfold received at hrf
   constructor
